@@ -266,8 +266,8 @@ def r94(chk, m):
     chk.verdict(R, 'refstepcounter makes the stepped node current', ok, 'refstepcounter must set context.currentlabel = self', chk.where(rs))
 
 
-def r95(chk, m):
-    R = chk.rule('R9.5', 'the label, pending-reference and counter tables are created fresh for every Context: fresh container '
+def r95(chk, m, rule_id='R9.5'):
+    R = chk.rule(rule_id, 'the label, pending-reference and counter tables are created fresh for every Context: fresh container '
                  'literals in __init__, no mutable default arguments, no class-level containers', 8)
     Context = m.cls('plasTeX.Context', 'Context')
     init = m.find_method(Context, '__init__')
@@ -278,11 +278,20 @@ def r95(chk, m):
     chk.verdict(R, 'Context.__init__ has no mutable default argument', not defaults,
                 'Context.__init__ has mutable default argument(s) %s: every Context built with the default shares that one object' % defaults, chk.where(init))
     assigned = {}
+    shared_lit = []
     for n in M.walk_no_nested(init.node):
         if isinstance(n, ast.Assign):
+            own = [t.attr for t in n.targets if isinstance(t, ast.Attribute) and text(t.value) == 'self']
             for t in n.targets:
                 if isinstance(t, ast.Attribute) and text(t.value) == 'self':
                     assigned[t.attr] = n.value
+            if len(own) > 1 and isinstance(n.value, (ast.Dict, ast.List, ast.Set, ast.Call)):
+                shared_lit.append(own)
+    # one container object bound to several tables (a = b = {}) / one table initialised from another
+    aliases = [(a, text(v)) for a, v in assigned.items() if isinstance(v, ast.Attribute) and text(v.value) == 'self' and v.attr in assigned]
+    chk.verdict(R, 'the tables of a Context are distinct objects', not shared_lit and not aliases,
+                'Context.__init__ binds one container to several attributes (%s): labels restored from other documents (labels) and the '
+                'labels this document saves (persistentLabels) must be separate tables' % (shared_lit or aliases), chk.where(init))
     for attr in ('labels', 'persistentLabels', 'refs', 'counters', 'contexts', 'packages', '_currenvir'):
         v = assigned.get(attr)
         fresh = isinstance(v, (ast.Dict, ast.List)) and not (v.keys if isinstance(v, ast.Dict) else v.elts) or \
